@@ -348,6 +348,25 @@ def shard_bv(shard, nshards, wmax):
     return run
 
 
+def shard_enum(shard, nshards, stride, offset):
+    """Bounded-exhaustive: every one- and two-operator term (vf/enumterms.py) under several total assignments."""
+    import itertools
+    from vf import enumterms
+    from vf.checks.c01 import enum_interps
+    run = Run(PID)
+    idx = 0
+    for t in itertools.chain((x for v in enumterms.depth1().values() for x in v), enumterms.depth2()):
+        idx += 1
+        if idx % nshards != shard or (idx // nshards) % stride != offset % stride:
+            continue
+        its = enum_interps(t)
+        step = max(1, len(its) // 3)
+        for I in its[(idx // 7) % step::step][:3]:
+            judge(run, t, I, sorted(I), True, "enumerated")
+        run.cls("enumerated-two-operator-term")
+    return run
+
+
 def main():
     chk = Check(PID, "exploration", RULE, assumptions=[
         "reference evaluator vf/refsem.py transcribes SMT-LIB 2.6 theory semantics",
@@ -365,8 +384,11 @@ def main():
     nb = 8
     for sh in range(nb):
         jobs.append((shard_bv, dict(shard=sh, nshards=nb, wmax=wmax)))
+    for sh in range(16):
+        jobs.append((shard_enum, dict(shard=sh, nshards=16, stride=1 if thorough else 8, offset=chk.seed)))
     chk.add(run_shards(jobs))
     chk.floor("sequence-with-failed-evaluation", 100)
+    chk.floor("enumerated-two-operator-term", 10000)
     chk.exhaustive.append("every BV operator x every operand value (operands as symbols), widths 1..%d" % wmax)
     chk.floor("partial", 1000)
     chk.floor("no-completion", 1000)
